@@ -247,4 +247,113 @@ def parsedAccepted (c : Bytes) : Prop :=
   3 ≤ c.length ∧ readBits c 0 2 = 2 ∧ 3 + hdl c ≤ c.length ∧ fixedFieldsEnd (flagsOf c) ≤ 3 + hdl c
 instance (c : Bytes) : Decidable (parsedAccepted c) := by unfold parsedAccepted; infer_instance
 
+/-! ## Readings chosen where the code checks or exposes less than the standard defines (review C)
+
+`parse` above describes what the crate's accessors *return*.  In four places that is less than
+Table 2-21 defines; they are spelled out here so that the difference is visible in the
+specification itself (the theorems are in `Ts/Props/C14.lean`, section "readings").
+
+### 1. trick mode: which bits of the trick-mode byte each variant exposes
+
+```
+ bits 0..3  trick_mode_control
+ control 000 fast_forward   bits 3..5 field_id | bit 5 intra_slice_refresh | bits 6..8 frequency_truncation
+ control 001 slow_motion    bits 3..8 rep_cntrl
+ control 010 freeze_frame   bits 3..5 field_id | bits 5..8 reserved
+ control 011 fast_reverse   as fast_forward
+ control 100 slow_reverse   bits 3..8 rep_cntrl
+ control 101,110,111        bits 3..8 reserved (5 bits)
+```
+
+For control codes 0..4 the crate's `DsmTrickMode` exposes **all eight bits**.  For the reserved
+control codes 5, 6, 7 it is `DsmTrickMode::Reserved { reserved: trick_mode_control }`: the value
+carried is the 3-bit **control code** (bits 0..3), and the five data bits (bits 3..8) are **not
+observable** through the API.  (Decision recorded for this verification: not a defect — the control
+code is exposed exactly; the data bits of a reserved code have no defined meaning.)
+
+`TrickStd` / `trickStdAt` is the standard's full reading, keeping the five data bits of a reserved
+code; `TrickStd.exposed` forgets exactly those five bits and yields the `TrickVal` that `trickAt`
+(hence `parse`) reports: `Ts.Props.C14.trickAt_eq_exposed`. -/
+
+/-- the standard's reading of the trick-mode byte: like `TrickVal`, but a reserved control code
+keeps its five data bits -/
+inductive TrickStd where
+  | fastForward (fieldId : Nat) (intraSliceRefresh : Bool) (frequencyTruncation : Nat)
+  | slowMotion (repCntrl : Nat)
+  | freezeFrame (fieldId reserved : Nat)
+  | fastReverse (fieldId : Nat) (intraSliceRefresh : Bool) (frequencyTruncation : Nat)
+  | slowReverse (repCntrl : Nat)
+  /-- trick_mode_control 5..7: the control code and the 5 reserved data bits -/
+  | reserved (control : Nat) (dataBits : Nat)
+  deriving DecidableEq, Repr
+
+/-- the trick-mode byte at byte `p`, every bit kept -/
+def trickStdAt (c : Bytes) (p : Nat) : TrickStd :=
+  match readBits c (8 * p) 3 with
+  | 0 => .fastForward (readBits c (8 * p + 3) 2) (readBits c (8 * p + 5) 1 == 1) (readBits c (8 * p + 6) 2)
+  | 1 => .slowMotion (readBits c (8 * p + 3) 5)
+  | 2 => .freezeFrame (readBits c (8 * p + 3) 2) (readBits c (8 * p + 5) 3)
+  | 3 => .fastReverse (readBits c (8 * p + 3) 2) (readBits c (8 * p + 5) 1 == 1) (readBits c (8 * p + 6) 2)
+  | 4 => .slowReverse (readBits c (8 * p + 3) 5)
+  | k => .reserved k (readBits c (8 * p + 3) 5)
+
+/-- what the API exposes of a trick-mode byte: everything, except that a reserved control code
+loses its five data bits -/
+def TrickStd.exposed : TrickStd → TrickVal
+  | .fastForward a b c => .fastForward a b c
+  | .slowMotion r => .slowMotion r
+  | .freezeFrame a b => .freezeFrame a b
+  | .fastReverse a b c => .fastReverse a b c
+  | .slowReverse r => .slowReverse r
+  | .reserved k _ => .reserved k
+
+/-- byte position of the trick-mode byte, from the flags: after the three fixed bytes, PTS/DTS
+(5 or 10 bytes), ESCR (6) and ES_rate (3) -/
+def trickPos (F : Flags) : Nat :=
+  3 + (match F.ptsDts with | 2 => 5 | 3 => 10 | _ => 0) + (if F.escr then 6 else 0)
+    + (if F.esRate then 3 else 0)
+
+/-! ### 2. PTS / DTS: the 4-bit prefix is not examined by `pts_dts()`
+
+Table 2-21 fixes the first four bits of each 5-byte time stamp: `'0010'` for a lone PTS
+(PTS_DTS_flags `'10'`), `'0011'` for the PTS and `'0001'` for the DTS of a pair (`'11'`).
+`PesParsedContents::pts_dts()` decodes with `Timestamp::from_bytes`, which checks the three marker
+bits but **not** the prefix, and `timestampAt` above follows it.  Reading chosen: `pts_dts()` is
+*lenient* — any prefix is accepted and the prefix does not influence the value.  Conversely the
+public helpers `Timestamp::from_pts_bytes` / `from_dts_bytes` (C15) demand `'0010'` / `'0001'`, so
+`from_pts_bytes` **rejects** the standard-conforming `'0011'` PTS of a PTS+DTS pair. -/
+
+/-- the 4-bit prefix of the 5-byte time stamp at byte `p` -/
+def tsPrefixAt (c : Bytes) (p : Nat) : Nat := readBits c (8 * p) 4
+
+/-- the prefixes Table 2-21 prescribes for the time stamps announced by PTS_DTS_flags (PTS at
+byte 3, DTS at byte 8) -/
+def ptsDtsPrefixStd (c : Bytes) : Prop :=
+  match (flagsOf c).ptsDts with
+  | 2 => tsPrefixAt c 3 = 0b0010
+  | 3 => tsPrefixAt c 3 = 0b0011 ∧ tsPrefixAt c 8 = 0b0001
+  | _ => True
+instance (c : Bytes) : Decidable (ptsDtsPrefixStd c) := by
+  unfold ptsDtsPrefixStd; split <;> infer_instance
+
+/-! ### 3. / 4. ESCR and ES_rate: the marker bits are not examined
+
+ESCR (6 bytes) carries four `marker_bit`s at bit offsets 5, 21, 37, 47; ES_rate (3 bytes) two, at
+bit offsets 0 and 23.  Unlike the PTS/DTS markers and the additional_copy_info marker (which are
+checked and reported), the crate ignores these six bits, and `escrAt` / `esRateAt` follow it.
+Reading chosen: lenient — the bits are neither checked nor part of any value. -/
+
+/-- the four marker bits of the ESCR at byte `p` are all set (what the standard prescribes) -/
+def escrMarkersStd (c : Bytes) (p : Nat) : Prop :=
+  readBits c (8 * p + 5) 1 = 1 ∧ readBits c (8 * p + 21) 1 = 1 ∧ readBits c (8 * p + 37) 1 = 1
+    ∧ readBits c (8 * p + 47) 1 = 1
+instance (c : Bytes) (p : Nat) : Decidable (escrMarkersStd c p) := by
+  unfold escrMarkersStd; infer_instance
+
+/-- the two marker bits of the ES_rate field at byte `p` are set -/
+def esRateMarkersStd (c : Bytes) (p : Nat) : Prop :=
+  readBits c (8 * p) 1 = 1 ∧ readBits c (8 * p + 23) 1 = 1
+instance (c : Bytes) (p : Nat) : Decidable (esRateMarkersStd c p) := by
+  unfold esRateMarkersStd; infer_instance
+
 end Ts.Spec.PesSpec
